@@ -638,11 +638,21 @@ def absent_optional_collection(schema, att, v):
 
 
 def exmax_with_exmin_site(schema, att, v):
-    """some number in v sits at or above the ExclusiveMaximum of an attribute that also has an ExclusiveMinimum"""
+    """some number in v (a value, or the key of a map) sits at or above the ExclusiveMaximum of an attribute that also has an ExclusiveMinimum"""
     for path, fatt, a, x, _ in sites(schema, att, v, [], "body"):
         ev = eff_val(schema, fatt)
         if "exmin" in ev and "exmax" in ev and isinstance(x, (int, float)) and not isinstance(x, bool) and x >= ev["exmax"]:
             return True
+        t = a.get("type", {})
+        if t.get("map_key") and isinstance(x, dict):
+            kev = eff_val(schema, t["map_key"])
+            if "exmin" in kev and "exmax" in kev:
+                for k in x:
+                    try:
+                        if float(k) >= kev["exmax"]:
+                            return True
+                    except (TypeError, ValueError):
+                        pass
     return False
 
 
